@@ -857,7 +857,7 @@ inline constexpr void Conversion<Unit::Speed, Unit::Speed::MicroinchPerHour>::To
 }
 
 template <typename NumericType>
-inline const std::map<Unit::Speed, std::function<void(NumericType* values, const std::size_t size)>>
+inline const ConversionTable<Unit::Speed, NumericType>
     MapOfConversionsFromStandard<Unit::Speed, NumericType>{
       {Unit::Speed::MetrePerSecond,
        Conversions<Unit::Speed,                                     Unit::Speed::MetrePerSecond>::FromStandard<NumericType>       },
@@ -939,8 +939,7 @@ inline const std::map<Unit::Speed, std::function<void(NumericType* values, const
 };
 
 template <typename NumericType>
-inline const std::map<Unit::Speed,
-                      std::function<void(NumericType* const values, const std::size_t size)>>
+inline const ConversionTable<Unit::Speed, NumericType>
     MapOfConversionsToStandard<Unit::Speed, NumericType>{
       {Unit::Speed::MetrePerSecond,
        Conversions<Unit::Speed,                                     Unit::Speed::MetrePerSecond>::ToStandard<NumericType>       },
